@@ -372,7 +372,9 @@ class BacktestingDispatcher(EventDispatcher):
     async def _dispatch_events(self, dt: datetime.datetime):
         # Pop events, push them into the task pool, and wait those to finish executing.
         self._last_dt = dt
-        for source, evnt in self._event_mux.pop_while(dt):
+        # Pop all the events up front. Events pushed by handlers while the pool is full belong to the next pass.
+        events = list(self._event_mux.pop_while(dt))
+        for source, evnt in events:
             await self._handlers_task_pool.push(
                 self._dispatch_event(EventDispatch(event=evnt, handlers=self._event_handlers.get(source, [])))
             )
